@@ -326,6 +326,7 @@ fn macro_part(prop: &str, tier: &str, probes: &Probes, col: &mut crate::report::
         prop: prop.to_string(),
         depth: std::env::var("VERIF_MACRO_DEPTH").ok().and_then(|s| s.parse().ok()).unwrap_or(if thorough { 4 } else { 3 }),
         rich: true,
+        policy_alphabet: false,
         probes: probes.clone(),
         max_secs: if thorough { 150.0 } else { 8.0 },
     };
@@ -336,7 +337,29 @@ fn macro_part(prop: &str, tier: &str, probes: &Probes, col: &mut crate::report::
         "[{prop}] MACRO configs={} sequences={} states={} calls={} longest={} capped={} ({:.1}s)",
         st.configs, st.sequences, st.states, st.calls, st.max_history_calls, st.capped, t0.elapsed().as_secs_f64()
     );
-    Some(crate::script::macro_coverage(&st))
+    let mut cov = crate::script::macro_coverage(&st);
+    // class / policy interplay: allocation-centred alphabet, 3 classes, 2-3 trees, deeper
+    let pp = crate::script::MacroParams {
+        prop: prop.to_string(),
+        depth: if thorough { 6 } else { 5 },
+        rich: false,
+        policy_alphabet: true,
+        probes: probes.clone(),
+        max_secs: if thorough { 120.0 } else { 8.0 },
+    };
+    let t1 = Instant::now();
+    let (pst, c) = crate::script::macro_all(&crate::script::policy_configs(thorough), &pp);
+    col.merge(c);
+    eprintln!(
+        "[{prop}] MACRO(policy) configs={} sequences={} states={} calls={} capped={} ({:.1}s)",
+        pst.configs, pst.sequences, pst.states, pst.calls, pst.capped, t1.elapsed().as_secs_f64()
+    );
+    if let Some(m) = cov.as_object_mut() {
+        m.insert("policy_family".into(), json!({"rule": "MACRO search with the allocation-centred alphabet (one allocation of order 0 / huge / tree order per class with and without slot, exhaust at huge order per class, free all, free every other, drain) on 2-3 tree allocators with 3-class policies",
+            "configs": pst.configs, "sequences": pst.sequences, "states": pst.states, "basic_calls": pst.calls,
+            "depth": pst.depth, "configs_capped": pst.capped}));
+    }
+    Some(cov)
 }
 
 fn ilv_opts(thorough: bool) -> crate::ilv::IlvOpts {
@@ -618,7 +641,11 @@ pub fn run(prop: &str, tier: &str, out: Option<&Path>) -> i32 {
                 },
                 max_secs: if thorough { 300.0 } else { 40.0 },
             };
-            run_seq(prop, tier, cfgs, params, seq_assume, out)
+            run_seq_with(prop, tier, cfgs, params, seq_assume, out, |col| {
+                let (h, c) = crate::script::change_by_search_family(col);
+                json!({"scripted_histories": h, "scripted_calls": c,
+                    "scripted_rule": "tree changes by search on allocators with 9/12/17/33 trees (harness/src/script.rs): for every tree t, t is made the only unreserved entirely free tree; offline by search, allocations of every kind, online by search, allocation from t; every call judged by the reference model and the tree-change oracle"})
+            })
         }
         "C05" => {
             let mut frames = vec![
